@@ -114,6 +114,36 @@ def body(chk, db, cfgname):
         else:
             r1.ok(site, f.loc(), "SelfAdjointEigenSolver(H, ComputeEigenvectors); H = eigenvectors(); Eigenvalues = eigenvalues()", cfgname)
 
+    # ---- nothing else in compute() defines or reorders the eigen-system
+    with r1.guard(HP + "::compute:no-other-definition", f.loc(), cfgname):
+        site = HP + "::compute:no-other-definition"
+        known = {x[0] for x in reads} | {x[0] for x in writes1} | ({evecs[0]} if evecs else set()) | ({evals[0]} if evals else set())
+        reorder = None
+        other = None
+        for j, n in f.walk(f.body):
+            if n["k"] == "call" and n.get("ck") == "func" and strip_targs(n.get("cname") or "") in ("std::sort", "std::stable_sort", "std::reverse", "std::swap", "std::partial_sort", "std::rotate", "std::nth_element", "std::swap_ranges"):
+                touches_ev = any(key_contains(ctx.key(a), lambda y: y == Ev) for a in n["args"])
+                touches_h = any(key_contains(ctx.key(a), lambda y: y == Hm) for a in n["args"])
+                if touches_ev != touches_h:
+                    reorder = (j, strip_targs(n.get("cname") or ""), "Eigenvalues" if touches_ev else "H")
+            if j in known:
+                continue
+            if (n["k"] == "call" and n.get("ck") == "op" and n.get("op") in ("=", "<<", "+=", "-=", "*=")) or (n["k"] == "bin" and n["op"] in ("=", "+=", "-=", "*=")):
+                lk = ctx.key(n["args"][0] if n["k"] == "call" else n["l"], inline=False)
+                if lk in (Ev, Hm) or (lk[0] == "op" and lk[1] in ("()", "[]") and lk[2] in (Ev, Hm)):
+                    other = other or (j, "assignment to %s" % ("Eigenvalues" if (lk == Ev or lk[2:3] == (Ev,)) else "H"))
+            if n["k"] == "call" and n.get("ck") == "method" and n.get("obj") is not None and ctx.key(n["obj"]) in (Ev, Hm):
+                short_ = strip_targs(n.get("cname") or "").split("::")[-1]
+                if short_.startswith("set") or short_ in ("swap", "fill", "conservativeResize", "transposeInPlace", "adjointInPlace", "reverseInPlace"):
+                    other = other or (j, "%s.%s()" % ("Eigenvalues" if ctx.key(n["obj"]) == Ev else "H", short_))
+        if reorder is not None:
+            r1.bad(site, f.loc(reorder[0]), "%s is reordered with %s but %s is not: eigenvalue k no longer belongs to eigenvector column k (H v = E v fails, look-ups by state label return another state's energy)" % (
+                reorder[2], reorder[1], "H" if reorder[2] == "Eigenvalues" else "Eigenvalues"), cfgname)
+        elif other is not None:
+            r1.unknown(site, f.loc(other[0]), "the eigen-system is also defined by %s, in a branch this rule does not analyse" % other[1], cfgname)
+        else:
+            r1.ok(site, f.loc(), "Eigenvalues and H are written only by the 1x1 special case and from the solver's results", cfgname)
+
     r2 = chk.rule("C03-R2", "orientation agreement: H is (Fock position, eigenstate) after compute and every reader uses that order", "F5 index spaces", 4)
     getters = [(HP + "::getEigenState", ("mcall", "Eigen::DenseBase::col", Hm), "H.col(state)"),
                (HP + "::getMatrixElement", ("op", "()", Hm), "H(m,n)"),
